@@ -80,6 +80,14 @@ def apply_event(segm, ev):
     if op == 'setdata':
         segm.data = np.array(ev['data'], dtype=segm.data.dtype)
         return None
+    if op == 'source_mask':
+        fp = np.zeros((ev['fp_shape'][0], ev['fp_shape'][1]), dtype=bool)
+        cy, cx = fp.shape[0] // 2, fp.shape[1] // 2
+        for dr, dc in ev['offsets']:
+            fp[cy + dr, cx + dc] = True
+        return segm.make_source_mask(footprint=fp) if not ev.get('use_size') else segm.make_source_mask(size=tuple(ev['fp_shape']))
+    if op == 'copy_check':
+        return None
     raise core.Machinery(f'unknown op {op}')
 
 
@@ -227,9 +235,24 @@ def record_trace(seed):
         segm._deblend_label_map = {20: np.array(ch, dtype=dtype)}
         dmap0 = [[20, ch]]
     events = []
+    copies = []
     for _ in range(rng.randint(4, 10)):
         labs = [int(x) for x in np.unique(segm.data) if x != 0]
-        kind = rng.choice(['reassign', 'remove', 'keep', 'relabel_consecutive', 'remove_border', 'remove_masked', 'read', 'read', 'setdata'])
+        kind = rng.choice(['reassign', 'remove', 'keep', 'relabel_consecutive', 'remove_border', 'remove_masked', 'read', 'read', 'setdata', 'source_mask', 'copy_check'])
+        if kind == 'copy_check' and copies:
+            snap_obj, snap_data = copies[-1]
+            rec = {'ev': {'op': 'copy_check'}, 'raised': False, 'data': segm.data.tolist(), 'dtype_ok': True,
+                   'dmap': dmap_views(copy.deepcopy(segm))[0] if hasattr(segm, '_deblend_label_map') else [],
+                   'copy_data': snap_obj.data.tolist(), 'copy_expected': snap_data}
+            try:
+                got = project(copy.deepcopy(segm), with_poly=False); rec['reads'] = {a: got[a] for a in ATTRS}; rec['reads_ok'] = True
+            except Exception:  # noqa
+                rec['reads'] = {}; rec['reads_ok'] = False
+            events.append(rec)
+            continue
+        if kind == 'copy_check':
+            copies.append((segm.copy(), segm.data.tolist()))       # a copy taken now must not see later mutations
+            continue
         rl = rng.random() < 0.4
         if kind in ('reassign', 'remove', 'keep'):
             if not labs:
@@ -251,6 +274,12 @@ def record_trace(seed):
                 r0, c0 = rng.randrange(h), rng.randrange(w)
                 a2[r0:min(h, r0 + 2), c0:min(w, c0 + 3)] = rng.randint(1, 9)
             ev = {'op': kind, 'data': a2.tolist()}
+        elif kind == 'source_mask':
+            sy, sx = rng.choice([1, 3, 5]), rng.choice([1, 3, 5])
+            cy, cx = sy // 2, sx // 2
+            full = rng.random() < 0.4
+            offs = [[r - cy, c - cx] for r in range(sy) for c in range(sx) if full or rng.random() < 0.6 or (r, c) == (cy, cx)]
+            ev = {'op': 'source_mask', 'fp_shape': [sy, sx], 'offsets': offs, 'use_size': bool(full and rng.random() < 0.5)}
         else:
             ev = {'op': 'read', 'attr': rng.choice(ATTRS)}
         rec = {'ev': ev}
@@ -261,6 +290,8 @@ def record_trace(seed):
             rec['raised'] = True
             rec['exc'] = type(e).__name__
         rec['data'] = segm.data.tolist()
+        if ev['op'] == 'source_mask' and not rec['raised']:
+            rec['srcmask'] = [[int(r), int(c)] for r, c in zip(*np.nonzero(np.asarray(ret)))]
         rec['dtype_ok'] = str(segm.data.dtype) == dtype
         if hasattr(segm, '_deblend_label_map'):
             rec['dmap'] = dmap_views(copy.deepcopy(segm))[0]
